@@ -191,6 +191,25 @@ def direct_cases(out):
         if got != want:
             out.violation("shared-object:" + name.split(",")[0].replace(" ", "-")[:40], f"{name}: verdicts {got} but every leaf POSITION has its own '?n' axis, so they must be {want}", {"direct": "shared-object"})
 
+    # the structure name is a name however it is SPELLED (blanks before and after are not part of it): two trees bound to
+    # the same name share their `?` axes position by position under every pair of spellings
+    for ax in ("?n", "*?n", "2 ?n"):
+        def mk(sz, ax=ax):
+            return Duck((2, sz)) if ax.startswith("2") else Duck((sz,))
+
+        for sx, sy in (("T", "T"), (" T", "T"), ("T", " T"), ("T", "T "), (" T", " T "), ("T ", "T"), ("\tT", "T")):
+            try:
+                X, Y = PyTree[Float[Duck, ax], sx], PyTree[Float[Duck, ax], sy]
+            except BaseException:  # noqa: BLE001
+                continue
+            got = [seq(({"a": mk(3), "b": mk(4)}, X), ({"a": mk(3), "b": mk(4)}, Y)), seq(({"a": mk(3), "b": mk(4)}, X), ({"a": mk(4), "b": mk(3)}, Y))]
+            want = [["T", "T"], ["T", "F"]]
+            out.case(("structure-spelling", ax, sx, sy), True, sample={"axis": ax, "spellings": [sx, sy], "verdicts": got})
+            if got != want:
+                out.violation("structure-spelling", f"x: PyTree[Float[{ax!r}], {sx!r}] then y: PyTree[Float[{ax!r}], {sy!r}] in one context, leaves a/b of sizes (3, 4) then (3, 4) / (4, 3): "
+                              f"verdicts {got}, must be {want} (the same name, so the same leaf positions share {ax})", {"direct": "structure-spelling"})
+                break
+
     # leaf types the typechecker looks INTO although `typing.get_args` shows nothing: a NamedTuple class (checked field by
     # field), a NewType (checked against its supertype) — a `?` axis anywhere inside the leaf type is usable, per position
     class Rec(typing.NamedTuple):
